@@ -157,6 +157,10 @@ func (p *parseVisitor) VisitLit(c parser.ILiteralContext, push bool) (machine.Ty
 		return machine.TypeAccount, addr, nil
 	case *parser.LitAssetContext:
 		asset := machine.Asset(c.GetText())
+		// the ASSET lexer rule accepts more than the asset pattern (e.g. USD/2/3)
+		if err := machine.ValidateAsset(asset); err != nil {
+			return 0, nil, LogicError(c, err)
+		}
 		addr, err := p.AllocateResource(program.Constant{Inner: asset})
 		if err != nil {
 			return 0, nil, LogicError(c, err)
